@@ -418,14 +418,15 @@ def pow10 : Nat → Nat
   | 0 => 1
   | n + 1 => 10 * pow10 n
 
-/-- `round(|q| * 10^8)` to the nearest integer, ties to even (what `%.8f` does with the exact
-    binary value) -/
-def round8 (q : Rat) : Nat :=
-  let a := if q < 0 then -q else q
-  let x := a * (pow10 8 : Nat)
+/-- nearest integer to a non-negative rational, ties to even -/
+def roundHalfEven (x : Rat) : Nat :=
   let fl := x.floor.toNat
   let fr := x - (fl : Rat)
   if fr < 1 / 2 then fl else if 1 / 2 < fr then fl + 1 else if fl % 2 = 0 then fl else fl + 1
+
+/-- `round(|q| * 10^8)` to the nearest integer, ties to even (what `%.8f` does with the exact
+    binary value) -/
+def round8 (q : Rat) : Nat := roundHalfEven ((if q < 0 then -q else q) * ((pow10 8 : Nat) : Rat))
 
 def pad8 (s : String) : String := "".pushn '0' (8 - s.length) ++ s
 
